@@ -1161,6 +1161,55 @@ func c03APIWhileStopping(c *core.Ctx, p c03Params) {
 			c.Violation("C03/serve-did-not-return:api-while-stopping", "Serve did not return within 20 s after Shutdown", what)
 			return
 		}
+		// the service is stopped: events sent through a resource obtained from it (as a store's
+		// change callbacks on foreign goroutines do) are refused, none of them panics, a query
+		// event ends with its single nil call, nothing reaches the closed connection
+		pos2 := rg.C.Len()
+		rs, rerr := rg.S.Resource(fmt.Sprintf("svc.m.%d", cy))
+		if rerr != nil {
+			c.Inconclusive("Service.Resource on the stopped service: " + rerr.Error())
+			continue
+		}
+		var qnil int32
+		stopped := []struct {
+			name string
+			f    func()
+		}{
+			{"Event", func() { rs.Event("ping", nil) }},
+			{"ChangeEvent", func() { rs.ChangeEvent(map[string]interface{}{"a": 1}) }},
+			{"ReaccessEvent", func() { rs.ReaccessEvent() }},
+			{"QueryEvent", func() {
+				rs.QueryEvent(func(qr res.QueryRequest) {
+					if qr == nil {
+						atomic.AddInt32(&qnil, 1)
+					}
+				})
+			}},
+		}
+		for _, call := range stopped {
+			call := call
+			ret := make(chan interface{}, 1)
+			go func() { ret <- try(call.f) }()
+			select {
+			case pn := <-ret:
+				if pn != nil {
+					c.Violation("C03/panic:"+call.name+":after-shutdown", fmt.Sprintf("%s on a resource of the stopped service panicked: %v", call.name, pn), what)
+				}
+			case <-time.After(10 * time.Second):
+				c.Violation("C03/hang:"+call.name+":after-shutdown", call.name+" on a resource of the stopped service did not return", what)
+				return
+			}
+		}
+		c.Obs("events_on_the_stopped_service", int64(len(stopped)))
+		for t := 0; t < 2000 && atomic.LoadInt32(&qnil) == 0; t++ {
+			time.Sleep(time.Millisecond)
+		}
+		if n := atomic.LoadInt32(&qnil); n != 1 && c.Violations() == 0 {
+			c.Violation("C03/query-event-after-shutdown", fmt.Sprintf("QueryEvent on a resource of the stopped service: callback called %d times with nil, want once", n), what)
+		}
+		if msgs := rg.C.Since(pos2); len(msgs) > 0 {
+			c.Violation("C03/published-after-shutdown", fmt.Sprintf("an event sent on the stopped service was published: %s", msgs[0].Subject), what)
+		}
 	}
 }
 
